@@ -17,12 +17,21 @@ options that change where the proposal noise comes from (rng= generator of cuqi.
 distribution objects of MH / CWMH, callable proposals of CWMH, the prior object of the pCN target; scalar and per-component
 scales) in dimension 2; each is realised with a scripted generator that serves the spec's noise component by component (a
 request without a size gets ONE component), the recorded calls of the generator show that the draws came from it.
+Component-wise sweeps (specs/CWSweep.tla, CWSweep.<tier>.cfg): the sweep of the component-wise kernel as the ordered record of
+the points at which the target is evaluated - component j must be evaluated at the CURRENT state (whatever happened to the
+earlier components: accepted / rejected / refused as non-finite) with only component j replaced; dimensions 2 and 3, targets
+whose support couples the components (band, disc, ring: NaN / -inf outside), every point of the support as initial state,
+all 3^d orders of outcomes; replayed on both interfaces through every public entry point that makes a transition
+(harness/cuqiverif/cwsweep_real.py).
+Chains (harness/cuqiverif/mhchain_real.py): the behaviours that consist of transitions only are also executed through the
+public loops sample() / warmup() (stateful) and sample() (stateless), which call step() / single_update() and thread the
+state and the cached evaluations.
 Code -> spec: real runs of the Metropolis-type samplers under the recorder log the boolean facets cache_ok /
 finite_ok / moved / acc of every transition; TLC validates them against TraceMHKernel.tla.
 """
 META = {
     "claimed": True,
-    "engine": "MHKernel.tla",
+    "engine": "MHKernel.tla + CWSweep.tla",
     "text": ("TLC checks on every reachable state of the bounded lattice model (d=1: 5 points, d=2: 3x3; quadratic, asymmetric "
              "and NaN/-inf-holed target tables; RW, CW, PCN, MALA x both interfaces; scalar, per-component and re-tuned scales; "
              "state reload) that the log-ratio computed from the caches is the Metropolis-Hastings log-ratio of the proposal "
@@ -37,7 +46,15 @@ META = {
              "also sample(2) after an aborted sample(2) on one sampler object); the configurations carry a randomness source "
              "(constant Sources: numpy's global stream | rng= generator | user-supplied proposal object | callable proposal | "
              "prior object) and every (kernel, interface, source) the spec enumerates is replayed in dimension 2 with a scripted "
-             "generator serving the noise component by component on noise vectors with two different components; recorded real "
+             "generator serving the noise component by component on noise vectors with two different components; CWSweep.tla "
+             "models the sweep of the component-wise kernel as the ordered record of evaluation points (d = 2, 3; targets with "
+             "coupled support band / disc / ring; every initial point of the support; all 3^d orders of accepted / rejected / "
+             "refused components; invariants EvalAtOneReplaced, EvalTrace, RatioIsMH, CacheCoherent, NoNonFiniteAccept, "
+             "OnlyComponentJ; deviations RefusedStaysInBuffer, ProposalsFromSweepStart, CacheLastEvaluated refuted) and every "
+             "emitted sweep is replayed on both interfaces through step / sample / warmup and single_update / sample / "
+             "sample_adapt: the evaluation record must contain the spec's points in order, then flags, point and cache; "
+             "behaviours made of transitions only are additionally run through the public chain loops (sample / warmup; legacy "
+             "sample) and compared state by state; recorded real "
              "runs are validated by TLC against TraceMHKernel."),
     "note": ("Targets are tables on a finite lattice (the ratio identities do not depend on the table values); a computed ratio "
              "must deviate by more than 1e-6 relative to flip a scripted decision. Legacy CWMH is driven with a copy of x "
@@ -48,8 +65,11 @@ META = {
              "Sources: a user-supplied proposal / prior / callable that is not drawn from is a mismatch (docstring 'The proposal to "
              "sample from'); whether the rng= argument of cuqi.sampler.ULA / MALA (not described in their docstrings) is the "
              "stream used, and which stream delivers the uniform, are observations - an unused rng= makes the facet vacuous "
-             "(exit 2). The experimental ULA / MALA and PCN / MH have no generator argument."),
-    "technique": "TLA+ spec (MHKernel) model-checked with TLC; TLC-generated behaviours replayed into the samplers with scripted randomness; recorded traces validated by TLC",
+             "(exit 2). The experimental ULA / MALA and PCN / MH have no generator argument. Sweeps: evaluations besides the "
+             "component proposals and whether a uniform is drawn for a refused proposal are observations; the uniform served is "
+             "chosen by the evaluation made last (evaluate-then-draw is assumed, otherwise exit 2). The columns of a legacy CWMH "
+             "chain other than the last are not compared (in-place overwrite = C14-F1)."),
+    "technique": "TLA+ specs (MHKernel, CWSweep) model-checked with TLC; TLC-generated behaviours replayed into the samplers with scripted randomness; recorded traces validated by TLC",
 }
 
 import concurrent.futures, hashlib, json, os, random, time, warnings
@@ -704,13 +724,14 @@ def sweep_facet(ctx, roots, behs, limit):
             entries = [W.ENTRIES[iface][0]]
             if n % 3 == 0:
                 alt = W.ENTRIES[iface][1 + (n // 3) % 2]
-                if alt == "sample_adapt" and nsw > 1:
-                    alt = "sample"           # the adaptive loop changes the scale after every sweep: first sweep only
                 entries.append(alt)
             for entry in entries:
+                bb = b
+                if entry == "sample_adapt" and nsw > 1:
+                    bb = dict(b, prog=W.split_sweeps(b["prog"])[0])     # the adaptive loop changes the scale after every sweep: first sweep only
                 ctx.case(("sweep", iface, entry, c["d"], c["tgt"], c["sc"], tuple(c["x0"]),
-                          hashlib.sha1(_cfgkey(b["prog"]).encode()).hexdigest()[:12]), facet="sweep")
-                W.run_sweeps(ctx, b, root, iface, entry, salt=n, stats=stats)
+                          hashlib.sha1(_cfgkey(bb["prog"]).encode()).hexdigest()[:12]), facet="sweep")
+                W.run_sweeps(ctx, bb, root, iface, entry, salt=n, stats=stats)
                 ctx.traces += 1
                 nrun += 1
     # vacuity: every order of accepted / rejected / refused components was really driven in both interfaces and both
